@@ -398,7 +398,12 @@ Call(e) ==
             Cardinality({i \in 1..Len(e.aux) : e.aux[i].kind \in {"viewfresh", "viewlate", "viewpost"}
                 /\ ~(\E k2 \in Keys : BadJson(newDocs[e.aux[i].c][k2]))
                 /\ (e.aux[i].err # "" \/ RowsOf(e.aux[i].rows) # ExpectedAuxV(e.aux[i].kind, newDocs[e.aux[i].c], "A"))
-                /\ Fail({"C12"}, e, <<"aux", e.aux[i].kind, e.aux[i].c>>, BriefRows(ExpectedAuxV(e.aux[i].kind, newDocs[e.aux[i].c], "A")),
+                \* the same query was right before the flush markers were written (one to this collection, the others to
+                \* other collections) and is wrong after: writes elsewhere changed what this collection's view returns (C11)
+                /\ Fail(IF e.aux[i].kind = "viewpost" /\ e.aux[i].c = c /\ vdef[c] = "A" /\ nv[c] = "A"
+                           /\ na[c]["view"] = ExpectedAux("view", newDocs[c])
+                        THEN {"C12", "C11"} ELSE {"C12"},
+                        e, <<"aux", e.aux[i].kind, e.aux[i].c>>, BriefRows(ExpectedAuxV(e.aux[i].kind, newDocs[e.aux[i].c], "A")),
                         IF e.aux[i].err # "" THEN e.aux[i].err ELSE BriefRows(RowsOf(e.aux[i].rows)))})
     IN
     /\ docs' = newDocs
